@@ -31,7 +31,9 @@ func newXMLWriter() *xmlWriter {
 }
 
 func (enc *xmlWriter) Clear() {
-	panicOnErr(enc.w.Close())
+	// The document being discarded may be incomplete (encoding aborted by a recovered panic):
+	// Close then reports its unclosed elements, which must not prevent the writer from being reset.
+	_ = enc.w.Close()
 	enc.buf.Reset()
 	enc.w = xml.NewEncoder(enc.buf)
 	enc.w.Indent("", "    ")
